@@ -143,6 +143,7 @@ def check_call(res, prefix, call, P_all, edges, case):
     if out is runner.FAILED:
         return
     res.n_evals += 1
+    held = out.detach().clone() if hasattr(out, "detach") else None  # what the caller was handed, as it was handed over
     F = to_field(res, prefix, out, E, H, W, stride, flatten)
     if F is None:
         return
@@ -256,6 +257,21 @@ def check_call(res, prefix, call, P_all, edges, case):
                         f"{prefix}:monotone:{ek}",
                         f"weight increases with distance: cell at d={ds[i]:.4g} has w={ws[i]:.6g} but a cell at d={ds[jj]:.4g} has w={ws[jj]:.6g}; {where}",
                     )
+    # a target handed to the caller stays what it was while further targets are generated (a data loader holds the
+    # targets of a whole batch): the tensor returned by the first call is compared with its snapshot after the
+    # single-animal calls above
+    if held is not None and n_inst >= 1 and hasattr(out, "shape") and tuple(out.shape) == tuple(held.shape):
+        import torch
+
+        same = torch.equal(torch.nan_to_num(out.detach(), nan=1234.5), torch.nan_to_num(held, nan=1234.5))
+        res.cls("held-result-rechecked-after-later-calls")
+        if not same:
+            d = float((torch.nan_to_num(out.detach()) - torch.nan_to_num(held)).abs().max())
+            res.fail(
+                f"{prefix}:earlier-result-changed-by-later-call",
+                f"the tensor returned for all {n_inst} animals changed (max |diff| {d:.3g}) after {n_inst} further calls of the same API "
+                f"(H={H} W={W} stride={stride} E={E} flatten={flatten})",
+            )
     if singles_ok and np.isfinite(F).all():
         res.n_evals += 1
         err = np.abs(F - total)
